@@ -63,7 +63,7 @@ Consistent(q, e, n) ==
       [] e.ev = "QPut" /\ e.res = "full" -> ~QHasRoom(q, n)
       [] e.ev = "QGet" /\ e.res = "ok"   -> q # <<>> /\ QTop(q) = e.item
       [] e.ev = "QGet" /\ e.res = "empty" -> q = <<>>
-      [] e.ev = "Quiesce" -> e.q = q
+      [] e.ev \in {"Quiesce", "Idle"} -> e.q = q
       [] OTHER -> TRUE
 
 \* Rules, evaluated after the event -------------------------------------------------------------
@@ -77,7 +77,10 @@ Clause(c, q, q2, o2, i, e, live, ls2) ==
          THEN "InterruptsPropagate"
     ELSE IF e.ev \in {"ReqEnd", "DispEnd"} /\ ~OnlyUrllib3On([res |-> e.res, cls |-> e.cls, inj |-> i])
          THEN "OnlyUrllib3Errors"
-    ELSE IF e.ev = "Quiesce" /\ ~SlotsRestoredOn(q2, c.n) THEN "SlotsRestored"
+    \* Idle: every request has returned or raised and every returned response has been disposed of, judged while
+    \* the caller still holds what it was given (an exception with its traceback, the disposed responses)
+    ELSE IF e.ev \in {"Quiesce", "Idle"} /\ ~SlotsRestoredOn(q2, c.n) THEN "SlotsRestored"
+    ELSE IF e.ev = "Idle" /\ ~NoOrphanOn(e.qs, o2) THEN "NoOrphanSocket"
     \* ground truth: a socket whose peer has not seen the client's close must be idle in the queue
     ELSE IF e.ev = "Quiesce" /\ ~NoOrphanOn(e.qs, SeqSet(e.open)) THEN "NoOrphanSocket"
     \* and so must every socket the client never called close() on (reaped by the collector at best)
